@@ -391,7 +391,7 @@ end UpfVerif.Core
 namespace UpfVerif.Core
 open UpfVerif.Spec
 
-theorem handleAssoc_good (st : State) (addr : String) (seq : BitVec 24) (nid : Option String) (env : Env) (c : Ctx) :
+theorem handleAssoc_good (st : State) (addr : String) (seq : BitVec 24) (nid : Option NodeId) (env : Env) (c : Ctx) :
     ∃ l, (handleAssoc st addr seq nid env c).2.outs = c.outs ++ l ∧ GoodStep st (handleAssoc st addr seq nid env c).1 l := by
   unfold handleAssoc
   split
